@@ -376,10 +376,31 @@ def run(ctx):
             ctx.ob("C02.6", "remote_addr-write|%s" % g2.id, "the remembered address is never changed", False, g2.loc(b2))
     if nrc:
         tnr = rd.term(nrc[0])
-        ai = [i for i, x in enumerate(tnr.get("arg_tys") or []) if "SocketAddr" in x]
-        o = rd.origin(tnr["args"][ai[0]]) if ai else ("unknown",)
+        # the peer-address argument of new_request (possibly inside a struct of the crate that bundles the arguments)
+        addr_local = None
+        for i_, ty_ in enumerate(tnr.get("arg_tys") or []):
+            if "SocketAddr" in ty_:
+                addr_local = op_local(tnr["args"][i_])
+            else:
+                a_ = facts.adts.get(ty_)
+                if a_ is not None and a_["kind"] == "Struct" and not ty_.startswith("std::"):
+                    fl_ = [x["name"] for x in a_["variants"][0]["fields"] if "SocketAddr" in x["ty"]]
+                    l_ = op_local(tnr["args"][i_])
+                    for _hop in range(6):       # through `let head = ..; f(head)` moves
+                        mv = [s2 for b2, i2, s2 in rd.assigns() if s2["lhs"]["l"] == l_ and not s2["lhs"]["p"] and s2["rhs"]["rv"] == "use" and op_local(s2["rhs"]["op"]) is not None
+                              and not (s2["rhs"]["op"].get("pl") or {}).get("p")]
+                        if len(mv) == 1:
+                            l_ = op_local(mv[0]["rhs"]["op"])
+                        else:
+                            break
+                    if fl_ and l_ is not None:
+                        for b2, i2, s2 in rd.assigns():
+                            r2 = s2["rhs"]
+                            if s2["lhs"]["l"] == l_ and not s2["lhs"]["p"] and r2["rv"] == "agg" and r2.get("adt") == ty_ and fl_[0] in (r2.get("fields") or []):
+                                addr_local = op_local(r2["ops"][r2["fields"].index(fl_[0])])
+        ai = addr_local is not None
         addr_f = [x["name"] for x in facts.adt(CC)["variants"][0]["fields"] if "SocketAddr" in x["ty"]]
-        sl = shared.backward_slice_locals(rd, [op_local(tnr["args"][ai[0]])]) if ai else set()
+        sl = shared.backward_slice_locals(rd, [addr_local]) if ai else set()
         reads_field = any(addr_f and addr_f[0] in pl_fields(p_) for b2, i2, s2 in rd.assigns() if s2["lhs"]["l"] in sl for p_, kind in rvalue_places(s2["rhs"]))
         panics = [short(call_name(t2)) for b2, t2 in rd.calls() if t2["dest"]["l"] in sl and call_matches(t2, r"(unwrap|expect)$") and not rd.blocks[b2].get("depth")]
         ctx.ob("C02.6", "%s|forwards-peer-addr" % PM.read_def, "each request reports the connection's remembered peer address", bool(ai) and reads_field and not panics, rd.loc(nrc[0]), str(panics) if panics else None)
